@@ -5,15 +5,12 @@ set -eu
 V="$(cd "$(dirname "$0")/.." && pwd)"
 export GOFLAGS=-mod=mod GOPROXY=off GOTOOLCHAIN=local
 mkdir -p "$V/.build/bin"
-if [ ! -x "$V/.build/bin/vrewrite" ] || [ "$V/cmd/vrewrite/main.go" -nt "$V/.build/bin/vrewrite" ]; then
-  (cd "$V" && go build -o .build/bin/vrewrite ./cmd/vrewrite)
-fi
+# always rebuild (content-addressed by the Go build cache; never trust mtimes)
+(cd "$V" && go build -o ".build/bin/vrewrite.$$" ./cmd/vrewrite && mv ".build/bin/vrewrite.$$" .build/bin/vrewrite)
 out="$VERIF_BDIR/rw"; rm -rf "$out"; mkdir -p "$out"
 if [ "${VRW_MAPS:-0}" = 1 ]; then
   # range-over-map sites from the compiler's type information (needs the repo's own toolchain)
-  if [ ! -x "$V/.build/bin/vmapsites" ] || [ "$V/cmd/vmapsites/main.go" -nt "$V/.build/bin/vmapsites" ]; then
-    (cd "$V/cmd/vmapsites" && GOTOOLCHAIN=auto go build -o "$V/.build/bin/vmapsites" .)
-  fi
+  (cd "$V/cmd/vmapsites" && GOTOOLCHAIN=auto go build -o "$V/.build/bin/vmapsites.$$" . && mv "$V/.build/bin/vmapsites.$$" "$V/.build/bin/vmapsites")
   python3 - "$out/ms_overlay.json" "${VERIF_MUTANT:-}" "$V" <<'PY'
 import json,sys,os
 rep={"/repo/pkg/Rust-VRF/vrf-func-ffi/src/vrf.go": sys.argv[3]+"/standin/vrf/vrf.go"}
